@@ -194,6 +194,14 @@ func storeSpecs(prop string, under []Kind, tier string, depthQuick, depthThoroug
 			if tier == "thorough" {
 				sp.Depth = depthThorough
 			}
+			switch a.K {
+			case 'S':
+				sp.Depth++ // cheap: a read, then additions to existing bins, need four steps
+			case 'P':
+				// runs in descending order (the buffer is unsorted until a read), of the
+				// same length as the seeds' runs
+				o.runs = append(o.runs, opAddRun(0, 62, 63, -1), opAddRun(0, 2, 3, -1), opAddRun(0, 0, 3, 1))
+			}
 			if tune != nil {
 				tune(sp, &o)
 			}
